@@ -50,29 +50,34 @@ class Tokenizer:
                 tok = self.consume_with_macro_params()
             elif self._call_macro:
                 tok = self.consume_macro_params()
+            elif self._proc_macro:
+                tok = self.consume_proc_macro_params()
             elif self._stack:
                 tok = self._stack.pop()
             else:
-                tok = next(self._tokengen)
-            if not self._path:
-                # remember every physical line seen (blank and comment lines, and all the
-                # lines of a multi-line token) so that error reports can quote any span
-                # (split on "\n" only, like readline: a form feed does not end a line)
-                parts = tok.line.split("\n")
-                lines = [part + "\n" for part in parts[:-1]]
-                if parts[-1] or not lines:
-                    lines.append(parts[-1])
-                for i, line in enumerate(lines):
-                    self._lines.setdefault(tok.start[0] + i, line)
+                tok = self._next_raw()
             if self.is_blank(tok):
                 continue
 
             self._tokens.append(tok)
         return self._tokens[self._index]
 
+    def _next_raw(self) -> TokenInfo:
+        """The next token of the underlying generator (also while a macro argument is being collected)."""
+        tok = next(self._tokengen)
+        if not self._path:
+            # remember every physical line seen (blank and comment lines, and all the
+            # lines of a multi-line token) so that error reports can quote any span
+            # (split on "\n" only, like readline: a form feed does not end a line)
+            parts = tok.line.split("\n")
+            lines = [part + "\n" for part in parts[:-1]]
+            if parts[-1] or not lines:
+                lines.append(parts[-1])
+            for i, line in enumerate(lines):
+                self._lines.setdefault(tok.start[0] + i, line)
+        return tok
+
     def is_blank(self, tok: TokenInfo) -> bool:
-        if self._proc_macro and tok.type in (Token.WS, Token.NL):
-            return False  # a subprocess macro takes the rest of the bracket verbatim, line ends included
         if tok.type in {Token.NL, Token.COMMENT, Token.WS}:
             return True
         if tok.type == Token.ERRORTOKEN and tok.string.isspace():
@@ -135,6 +140,40 @@ class Tokenizer:
         if not string.strip():
             return TokenInfo(Token.WS, string, start, end, line)
         return TokenInfo(Token.MACRO_PARAM, string, start, end, line)
+
+    def consume_proc_macro_params(self) -> TokenInfo:
+        """The rest of a subprocess bracket after `cmd!`, verbatim, as one token.
+
+        Everything up to the bracket that closes the subprocess is text: nested brackets
+        (balanced), strings, comments, line ends and characters that are no token at all.
+        """
+        start: tuple[int, int] | None = None
+        end: tuple[int, int] | None = None
+        paren_level: list[str] = []
+        string = ""
+        line = ""
+        while True:
+            tok = self._next_raw()
+            if tok.type == Token.ENDMARKER:  # unclosed subprocess: let the parser report it
+                self._stack.append(tok)
+                break
+            if tok.type == Token.OP and tok.string[-1] in "([{":
+                paren_level.append(tok.string[-1])
+            elif tok.type == Token.OP and (opener := self._end_parens.get(tok.string)):
+                if paren_level and paren_level[-1] == opener:
+                    paren_level.pop()
+                elif not paren_level and tok.string != "}":  # the end of the subprocess itself
+                    self._stack.append(tok)
+                    break
+            end = tok.end
+            if start is None:
+                start = tok.start
+                line = tok.line
+            string += tok.string
+        self._proc_macro = False
+        if start is None or end is None:  # nothing at all after the bang
+            return self._stack.pop()
+        return TokenInfo(Token.MACRO_PARAM if string.strip() else Token.WS, string, start, end, line)
 
     def consume_with_macro_params(self) -> TokenInfo:  # noqa: C901
         """loop until we get INDENT-DEDENT or NL"""
